@@ -53,7 +53,7 @@ impl Property for C07 {
         "C07"
     }
     fn rule(&self) -> String {
-        format!("histories of 1..12 operations over a 4-file workspace: edit(file, one of {NVARIANTS} text variants: every include subset x {{clean, declaration renamed, includes moved below the class}} x {{syntax error, type error, include of a missing file}}) applied server-style (edited file becomes root) or API-style (root unchanged), root switches, and disk-only changes of a file (picked up when the sources are next collected); after EVERY step the long-lived AnalysisHost's full dump (diagnostics, per workspace file: symbols, folding, links, full-range hints, definition/references/hover at every identifier, completion at 9 offsets x 2 triggers; FileId -> path; hash-ordered lists sorted) must equal the dump of a fresh host given only the current texts; family server-histories replays such histories (didOpen/didChange/didClose and rewrites of files on disk with an unchanged modification time - also with an unchanged length -, 1..7 events) through the real server and compares its last published diagnostics and the documentSymbol answer of every open document with a fresh analysis of disk overlaid by the open buffers. distinct = digest of history; non-trivial = >=2 edits, one changing an include set or the root, and the dump changed between two consecutive steps")
+        format!("histories of 1..12 operations over a 4-file workspace: edit(file, one of {NVARIANTS} text variants: every include subset x {{clean, declaration renamed, includes moved below the class}} x {{syntax error, type error, include of a missing file}}) applied server-style (edited file becomes root) or API-style (root unchanged), root switches, and disk-only changes of a file (picked up when the sources are next collected); after EVERY step the long-lived AnalysisHost's full dump (diagnostics, per workspace file: symbols, folding, links, full-range hints, definition/references/hover at every identifier, completion at 9 offsets x 2 triggers; FileId -> path; hash-ordered lists sorted) must equal the dump of a fresh host given only the current texts; family server-histories replays such histories (didOpen/didChange/didClose and rewrites of files on disk with an unchanged modification time - also with an unchanged length -, and a file that some variants include in vain appearing on disk / being deleted / being opened as a never-saved document / closed, 1..7 events) through the real server and compares its last published diagnostics and the documentSymbol answer of every open document with a fresh analysis of disk overlaid by the open buffers. distinct = digest of history; non-trivial = >=2 edits, one changing an include set or the root, and the dump changed between two consecutive steps")
     }
     fn assumptions(&self) -> Vec<String> {
         vec!["every edit is followed by set_root_file (the only way the API (re)collects include maps); the in-memory FileSystem is updated together with set_file_content".into()]
@@ -91,7 +91,7 @@ impl Property for C07 {
             Family::new("server-histories", ctx.tier.pick(16, 400), |_c, rng, emit| {
                 for _ in 0..12 {
                     let n = 1 + rng.below(7);
-                    let ops: Vec<_> = (0..n).map(|_| json!([rng.weighted(&[6, 1, 2, 2]), rng.below(NFILES), rng.below(NVARIANTS)])).collect();
+                    let ops: Vec<_> = (0..n).map(|_| json!([rng.weighted(&[6, 1, 2, 2, 2]), rng.below(NFILES), rng.below(NVARIANTS)])).collect();
                     if !emit(json!({"kind": "server-hist", "ops": ops})) {
                         return;
                     }
@@ -302,6 +302,7 @@ fn server_history(case: &Case, ops: &[serde_json::Value]) -> Verdict {
     let mut verdict = None;
     let mut touches = 0;
     let mut structural = false;
+    let mut nowhere_on_disk: Option<String> = None;
     for (step, op) in ops.iter().enumerate() {
         let (Some(kind), Some(f), Some(v)) = (op[0].as_u64(), op[1].as_u64(), op[2].as_u64()) else {
             verdict = Some(Verdict::Skip("malformed-case"));
@@ -309,7 +310,58 @@ fn server_history(case: &Case, ops: &[serde_json::Value]) -> Verdict {
         };
         let f = f as usize % NFILES;
         let name = format!("f{f}.td");
-        if kind % 4 == 1 {
+        if kind % 5 == 4 {
+            // the file that some variants include in vain, nowhere.td, comes and goes: it appears on disk /
+            // is deleted (v even), or is opened as a document that was never saved / closed again (v odd).
+            // An include that could not be resolved when its file was last analysed resolves now, and back.
+            let nw = "nowhere.td".to_string();
+            let text = format!("class Nowhere{f};\n");
+            if v % 2 == 0 {
+                if nowhere_on_disk.is_some() {
+                    let _ = std::fs::remove_file(s.tw.path(&nw));
+                    nowhere_on_disk = None;
+                    if !s.opened.contains(&nw) {
+                        model.remove(&nw);
+                    }
+                } else {
+                    s.tw.write(&nw, &text);
+                    nowhere_on_disk = Some(text.clone());
+                    if !s.opened.contains(&nw) {
+                        model.insert(nw.clone(), text);
+                    }
+                }
+                structural = true;
+                continue;
+            }
+            if s.opened.contains(&nw) {
+                s.close(&nw);
+                match &nowhere_on_disk {
+                    Some(t) => {
+                        model.insert(nw.clone(), t.clone());
+                    }
+                    None => {
+                        model.remove(&nw);
+                    }
+                }
+                continue;
+            }
+            model.insert(nw.clone(), text.clone());
+            if !s.touch(&nw, &text) {
+                verdict = Some(Verdict::Skip("not-idle"));
+                break;
+            }
+            structural = true;
+            if let Err((what, detail)) = compare_with_fresh(&mut s, &model, &nw) {
+                verdict = Some(if what.is_empty() {
+                    Verdict::Skip("no-response")
+                } else {
+                    Verdict::Fail(Failure::new("C07.server-differs-from-fresh", format!("C07.server-differs-from-fresh:{what}"), format!("server history {} step {step}: {detail}", case["ops"])))
+                });
+                break;
+            }
+            continue;
+        }
+        if kind % 5 == 1 {
             // close: the disk text is the truth again; observed at the next analysed step
             if s.opened.contains(&name) {
                 s.close(&name);
@@ -317,7 +369,7 @@ fn server_history(case: &Case, ops: &[serde_json::Value]) -> Verdict {
             }
             continue;
         }
-        if kind % 4 == 3 {
+        if kind % 5 == 3 {
             // the file is rewritten on disk with a text of the SAME length (its class is renamed K<f> <-> Q<f>,
             // which every user of the class notices) and, as always here, the same modification time
             let cur = disk[f].1.clone();
@@ -332,7 +384,7 @@ fn server_history(case: &Case, ops: &[serde_json::Value]) -> Verdict {
             }
             continue;
         }
-        if kind % 4 == 2 {
+        if kind % 5 == 2 {
             // the file changes on disk (same modification time, as scratch files always have): the new
             // text is the truth for a document that is not open; observed at the next analysed step
             let t = variant_text(f, v as usize % NVARIANTS);
